@@ -644,6 +644,11 @@ impl Scenario for Pool3 {
                 Op::DepositWithdraw { amounts: [d0, muldiv128(d0, o.reserves[1], o.reserves[0].max(1)).unwrap_or(1).min(bal[1]).max(1), muldiv128(d0, o.reserves[2], o.reserves[0].max(1)).unwrap_or(1).min(bal[2]).max(1)] }
             }
             _ if rng.chance(1, 4) => Op::SetCollector { second: rng.chance(1, 2) },
+            _ if rng.chance(1, 3) => {
+                // re-split the same total between the three fees
+                let c = &self.cfg.fees;
+                Op::SetFees { fees: if rng.chance(1, 2) { [c[1].clone(), c[2].clone(), c[0].clone()] } else { [c[2].clone(), c[0].clone(), c[1].clone()] } }
+            }
             _ => Op::SetFees { fees: gen_fees(rng) },
         };
         let fault = match op { Op::Ramp { .. } | Op::RoundTrip { .. } | Op::DepositWithdraw { .. } | Op::SetFees { .. } | Op::SetCollector { .. } => Fault::None, _ => fault };
